@@ -11,6 +11,7 @@ import (
 	"github.com/pion/rtcp"
 	"pgregory.net/rapid"
 
+	"verif/conv"
 	"verif/gen"
 	"verif/harness"
 	m "verif/refmodel"
@@ -152,6 +153,28 @@ var subC01 = harness.NewSub(subC01Name, func(c c01Case, _ harness.Dialect) error
 	}
 	if dur > c01TimeLimit {
 		return fmt.Errorf("%s on %d octets took %v (bound %v)\ninput: %s", c.EP, len(c.B), dur, c01TimeLimit, hexs(c.B))
+	}
+	return nil
+})
+
+// c01Reuse: a decoder must not panic (or hang, or over-allocate) whatever its receiver held
+// before: A is decoded first (outcome ignored), then B into the same receiver.
+type c01Reuse struct {
+	Kind m.Kind
+	A, B m.Bytes
+}
+
+var subC01Reuse = harness.NewSub("c01-decode-into-used-receiver-robust", func(c c01Reuse, _ harness.Dialect) error {
+	recv := conv.New(c.Kind)
+	_ = harness.Guard(func() error { _ = recv.Unmarshal(exactCopy(c.A)); return nil })
+	a0 := heapAllocated()
+	perr := harness.Guard(func() error { _ = recv.Unmarshal(exactCopy(c.B)); return nil })
+	a1 := heapAllocated()
+	if perr != nil {
+		return fmt.Errorf("%s.Unmarshal(B) into a receiver that decoded A before: %v\nA: %s\nB: %s", conv.GoType(c.Kind), perr, hexs(c.A), hexs(c.B))
+	}
+	if bound := uint64(c01FixedBytes + c01PerOctet*len(c.B)); a1-a0 > bound {
+		return fmt.Errorf("%s.Unmarshal(B) into a used receiver allocated %d bytes (bound %d)", conv.GoType(c.Kind), a1-a0, bound)
 	}
 	return nil
 })
@@ -402,6 +425,9 @@ func TestC01(t *testing.T) {
 		harness.Class("sweep:"+ep.Name, n)
 	}
 
+	// (1b) decoders called on a receiver that was used before
+	testC01Reuse(t)
+
 	// (2) generated hostile inputs
 	harness.RapidCheck(t, harness.Scale(5000, 40000), 1, func(rt *rapid.T) {
 		big := rapid.IntRange(0, 39).Draw(rt, "big?") == 0
@@ -435,6 +461,31 @@ func TestC01(t *testing.T) {
 			w = b[lo : lo+n]
 		}
 		c01Eval(rt, sub, kind, w)
+	})
+}
+
+func testC01Reuse(t *testing.T) {
+	harness.RapidCheck(t, harness.Scale(4000, 30000), 12, func(rt *rapid.T) {
+		k := rapid.SampledFrom(append(append([]m.Kind(nil), m.TypedKinds...), m.KRAW, m.KCOMPOUND)).Draw(rt, "reuse.kind")
+		_, a := gen.HostileBytes(rt, false)
+		_, b := gen.HostileBytes(rt, false)
+		if rapid.Bool().Draw(rt, "same.kind") && k != m.KCOMPOUND {
+			ea, _ := m.Encode(c06Readable(gen.PacketOf(rt, k)), &m.EncOpts{D: gen.PionDialect})
+			eb, _ := m.Encode(c06Readable(gen.PacketOf(rt, k)), &m.EncOpts{D: gen.PionDialect})
+			a, b = ea.B, eb.B
+			if rapid.Bool().Draw(rt, "cut.b") && len(b) > 8 {
+				b = b[:rapid.IntRange(4, len(b)-1).Draw(rt, "cut")]
+			}
+		}
+		if len(a) > 8192 {
+			a = a[:8192]
+		}
+		if len(b) > 8192 {
+			b = b[:8192]
+		}
+		c := c01Reuse{Kind: k, A: a, B: b}
+		harness.Record(subC01Reuse.Name, c, true, "reuse:"+string(k))
+		subC01Reuse.Check(rt, c)
 	})
 }
 
